@@ -79,6 +79,33 @@ def abstract(formulas, terms):
     return [z3.substitute(f, *subs) if isinstance(f, z3.ExprRef) else f for f in formulas]
 
 
+def finite_axioms(formulas):
+    """REAL mode: when the symbolic infinity occurs, it is larger than 2^127 and every real input symbol and every real-valued
+    uninterpreted application lies strictly between -INF and INF (float32 values are finite or exactly +-inf)"""
+    from .ops import INF, NAN
+    consts, apps, has_inf = {}, {}, False
+    seen = set()
+    stack = [f for f in formulas if isinstance(f, z3.ExprRef)]
+    while stack:
+        t = stack.pop()
+        i = t.get_id()
+        if i in seen:
+            continue
+        seen.add(i)
+        if z3.is_app(t):
+            if t.eq(INF):
+                has_inf = True
+            elif t.decl().kind() == z3.Z3_OP_UNINTERPRETED and z3.is_real(t) and not t.eq(NAN):
+                (consts if t.num_args() == 0 else apps)[i] = t
+            stack.extend(t.children())
+    if not has_inf:
+        return []
+    out = [INF >= z3.RealVal(2) ** 127]
+    for t in list(consts.values()) + list(apps.values()):
+        out += [t > -INF, t < INF]
+    return out
+
+
 def eq_elem(a, b, o=None):
     """equality of two elements; True if syntactically identical"""
     if isconc(a) and isconc(b):
@@ -291,6 +318,7 @@ class Check:
                 self._sample(ob, assumptions, "identical terms")
             return True
         fs = list(assumptions) + [neg(goal)]
+        fs += finite_axioms(fs)
         if axioms:
             fs += solve.instantiate_axioms(fs, extra_axioms)
         res = solve.decide(fs, timeout_s=timeout or self.default_timeout, nonlinear=nonlinear, ackermann=ackermann, second=self.second)
